@@ -268,8 +268,8 @@ Print Assumptions C01_hybrid_switching.
 
 (* WHFast, safe_mode 0, coordinates recomputed three times while unsynchronized (word traced from the library): the word with a
    synchronize at every occurrence equals five synchronised steps (all words up to length 4) *)
-Theorem C01_whfast_recalculate_unsynchronized : whfast_recalc_ok = true.
-Proof. exact whfast_recalc. Qed.
+Theorem C01_whfast_recalculate_unsynchronized : whfast_recalc_ok = true /\ saba_recalc_ok = true.   (* and for all ten plain SABA types *)
+Proof. exact (conj whfast_recalc saba_recalc). Qed.
 Print Assumptions C01_whfast_recalculate_unsynchronized.
 
 (* Non-vacuity: the decision procedure rejects wrong claims (leapfrog of order 4; SABA2 of grading (6,2)),
